@@ -45,6 +45,11 @@ PyLaw ==
 PyNoBraceLeft ==
   \A a, b \in Boundary : (a >= 128 /\ b >= 128) =>
      ~HasBraceEscapeFrom(PyRewriteFrom(Brace(a) \o Brace(b) \o <<123, 50, 125>>, 1), 1)
+(* D15: an escaped backslash followed by a counted 'u' is not an escape; an escape after an escaped backslash is *)
+PyEscapedBackslash ==
+  /\ PyRewriteFrom(<<94, 92, 92, 117, 123, 51, 125, 36>>, 1) = <<94, 92, 92, 117, 123, 51, 125, 36>>
+  /\ PyRewriteFrom(<<92, 92>> \o Brace(233), 1) = <<92, 92, 92, 117, 48, 48, 101, 57>>
+  /\ PyRewriteFrom(<<92, 92, 92, 92>> \o Brace(233), 1) = <<92, 92, 92, 92, 92, 117, 48, 48, 101, 57>>
 PyKeepsOtherText == \A s \in SeqsUpTo({92, 117, 123, 97, 125}, 4) :
      (~HasBraceEscapeFrom(s, 1)) => PyRewriteFrom(s, 1) = s
 
